@@ -31,4 +31,6 @@ def run(idx, rep, tier):
     frame.r_frame(idx, rep, e2(idx), modules={N1, N2}, floor=10)      # relative pose oR1 / ot1 of collider 1 in collider 0's frame
     nesterov.r_mainloop(idx, rep)
     misc2.r_dupcond(idx, rep, [m.name for m in idx.lib_modules()], floor=3)
+    nesterov.r_supportsibling(idx, rep)
+    johnson.r_cofactorsign(idx, rep)
     unpack.r_unpack(idx, rep, floor=27)
